@@ -55,7 +55,7 @@ def gen_cases(tier: str, seed: int):
         cfg = {"n_chain": n_chain, "n_warm": n_warm, "n_main": int(COUNTS[int(rng.integers(0, 5))]),
                "adapters": adapters if n_warm > 0 or rng.integers(0, 2) else [], "stager": stager if adapters else None,
                "seed": int(rng.integers(0, 10**6)), "model_seed": int(rng.integers(0, 100)), "dim": int(rng.integers(1, 4)),
-               "trace": [[], ["pos"], ["pos", "scalars"], ["energy", "int_vec"], ["odd_keys", "pos"]][int(rng.integers(0, 5))],
+               "trace": [[], ["pos"], ["pos", "scalars"], ["energy", "int_vec"], ["odd_keys", "pos"], "default"][int(rng.integers(0, 6))],
                "display_progress": bool(i % 7 == 3),
                "trace_warm_up": bool(rng.integers(0, 2)), "transition": ["static", "random", "multinomial", "slice"][i % 4],
                "init": ["state", "dict", "array", "state_nomom"][int(rng.integers(0, 4))],
@@ -249,7 +249,7 @@ def run_case(case, obs) -> None:
             obs.inconc("run-timeout")
             return
         base = check_run(obs, res, base_cfg, "sequential-memory")
-        obs.token(cfg.get("front_end"), cfg["transition"], cfg["n_chain"], cfg["n_warm"], cfg["n_main"], tuple(cfg["trace"]),
+        obs.token(cfg.get("front_end"), cfg["transition"], cfg["n_chain"], cfg["n_warm"], cfg["n_main"], str(cfg["trace"]),
                   tuple(cfg["adapters"]), str(cfg.get("stager")), cfg["init"], "base", cfg.get("trace_warm_up"))
         for mode in case["modes"]:
             mcfg = dict(cfg)
